@@ -150,7 +150,76 @@ def run(spec):
     return {'nontrivial': prefixy and len(changed_names) >= 2, 'labels': labels}
 
 
-FAMILIES = [Family('rename', case, run, quick=6000, thorough=400000)]
+# ------------------------------------------------------------------------------------------------
+# The callers named in the property's anchors: Equation / EquationBlock .ReplaceTokensFromLookup (alias fixing and
+# local->full qualification go through them, term by term).
+@st.composite
+def equation_case(draw):
+    ci = draw(st.integers(0, len(CLUSTERS) - 1))
+    pool = draw(st.lists(st.sampled_from(CLUSTERS[ci]), min_size=2, max_size=4, unique=True))
+    lead = draw(st.one_of(st.none(), gen.expression(pool, max_leaves=4, comparisons=False, strings=False, lists=False,
+                                                    lags=False, ops=('+', '-', '*'))))
+    term_st = st.one_of(st.sampled_from(pool),
+                        st.tuples(st.sampled_from(pool), st.sampled_from(['*', '/']), st.sampled_from(pool)).map(''.join),
+                        st.tuples(st.sampled_from(['2', '0.5', '3.']), st.just('*'), st.sampled_from(pool)).map(''.join))
+    terms = draw(st.lists(st.tuples(st.sampled_from(['+', '-', '']), term_st).map(''.join), min_size=1, max_size=5))
+    shape = draw(st.integers(0, 3))
+    if shape == 0:
+        lookup = {pool[0]: pool[1], pool[1]: pool[0]}
+    elif shape == 1 and len(pool) >= 3:
+        lookup = {pool[0]: pool[1], pool[1]: pool[2], pool[2]: pool[0]}
+    else:
+        lookup = draw(st.dictionaries(st.sampled_from(pool), st.sampled_from(FRESH + pool), min_size=1, max_size=4))
+    vals = {n: draw(st.integers(1, 40)) / 4.0 for n in pool}
+    return {'lead': lead, 'terms': terms, 'lookup': lookup, 'vals': vals, 'via': draw(st.sampled_from(['equation', 'block']))}
+
+
+def run_equation(spec):
+    from sfc_models.equation import Equation, Term, EquationBlock
+    from sfc_models.utils import LogicError
+    lookup = spec['lookup']
+    try:
+        if spec['lead'] is not None:
+            eq = Equation('v', 'd', [Term(spec['lead'], is_blob=True)])
+        else:
+            eq = Equation('v', 'd', [])
+        for t in spec['terms']:
+            eq.AddTerm(t)
+    except (LogicError, SyntaxError, NotImplementedError):
+        raise Reject('term refused')
+    before = eq.RHS()
+    if spec['via'] == 'block':
+        blk = EquationBlock()
+        blk.AddEquation(eq)
+        blk.ReplaceTokensFromLookup(lookup)
+    else:
+        eq.ReplaceTokensFromLookup(lookup)
+    after = eq.RHS()
+    names_before = expr.names(before)
+    want_names = [lookup.get(n, n) for n in names_before]
+    got_names = expr.names(after)
+    if got_names != want_names:
+        raise Violation('C13/equation-level-rename', 'equation %r under %r became %r: names %r, expected %r' %
+                        (before, lookup, after, got_names, want_names))
+    distinct = sorted(set(names_before))
+    images = [lookup.get(n, n) for n in distinct]
+    if len(set(images)) == len(images):
+        env = {n: spec['vals'].get(n, 1.5) for n in distinct}
+        env2 = {lookup.get(n, n): v for n, v in env.items()}
+        a = _eval(before, env)
+        b = _eval(after, env2)
+        if a != b:
+            raise Violation('C13/equation-level-value', 'equation %r evaluates to %r, renamed %r (map %r) to %r' %
+                            (before, a, after, lookup, b))
+    changed = len(set(n for n in names_before if lookup.get(n, n) != n))
+    product = any(('*' in t or '/' in t) for t in spec['terms'])
+    return {'nontrivial': changed >= 2 and product, 'labels': ['via:' + spec['via']]}
+
+
+FAMILIES = [
+    Family('rename', case, run, quick=6000, thorough=400000),
+    Family('equation-level', equation_case, run_equation, quick=3000, thorough=100000),
+]
 
 MANIFEST_INFO = {
     'level_text': 'Generated-input exploration: thousands of grammar-drawn expressions x renaming maps checked token by '
